@@ -246,12 +246,13 @@ SPECS["C02"] = dict(
                  "kept dimension never splits a conjugate pair. GenEigsComplexShiftSolver::sort_ritzpair (real code) from an arbitrary Ritz state with a specification stub for the user's "
                  "shift-solve operator: for a symbolic real eigenvalue lambda and three fixed complex shifts, nu = Re-part eigenvalue computed from lambda, the code's two candidate roots and its probe at a real "
                  "shift return lambda itself (never the mirror root sigma_r + sigma_i^2/(lambda - sigma_r)) with imaginary part exactly 0, the shift installed at construction is in force again afterwards, and the "
-                 "probe solve is defined: the probe shift differs from every eigenvalue of A under the single genericity assumption the library itself makes (its fixed pseudo-random probe is not an eigenvalue). "
+                 "probe is not made at Re sigma or Re sigma +- Im sigma - real numbers the property explicitly allows to be eigenvalues of A (a probe there solves with a singular matrix); for any other probe value "
+                 "the definedness of the probe solve is the genericity assumption the library itself makes, so another seed or formula for the probe raises no alarm. "
                  "Concrete replay drivers of the two fixed defects re-run every time."),
     functions=GLUE_FUNCS_GEN,
     stubs=GLUE_STUBS + ["complex-shift cases: the user's operator := exact shift-solve on an eigenvector, (A - r I)^-1 v = v/(lambda - r), defined iff r is no eigenvalue of A (lambda and one arbitrary further eigenvalue are symbols); "
-                        "std::sqrt(complex) := real radical for a real argument; RandomScalar::run := real generator state transition, draw mapped to a dyadic rational in [-0.5, 0.5]"],
-    assumptions=GLUE_ASSUME + ["complex-shift cases: the library's fixed pseudo-random probe shift rng(0).random()*sigma_r + rng(0).random() (either evaluation order of the two draws) is not an eigenvalue of A; nu != 0"],
+                        "std::sqrt(complex) := real radical for a real argument; RandomScalar::run := real generator state transition, draw mapped to an odd multiple of 1/16 in (-0.5, 0.5)"],
+    assumptions=GLUE_ASSUME + ["complex-shift cases: the probe shift actually used is not an eigenvalue of A unless it is Re sigma or Re sigma +- Im sigma (then it is reported); nu != 0"],
     bounds={"quick": {"(n,nev,ncv)": "(5,1,3) maxit 0,1; (5,2,4) maxit 0", "rules": "6 selection rules", "histories": "ic, icc, icic, icC", "complex shift": "sigma in {0.5+0.75i, i, -2+0.5i}, real lambda symbolic, n=3"},
             "thorough": {"(n,nev,ncv)": "(5,1,3),(5,2,4) maxit<=2; (6,2,5),(6,3,5),(7,1,6) maxit<=1"}},
     outside=[ROUNDING, "GenEigsComplexShiftSolver's root selection for COMPLEX eigenvalues (harness cases exist; the complex square root contract leaves them undecided within the solver caps) and its numerical conditioning", "unit norm of x relies on K2's unit-norm contract (C09)",
